@@ -95,11 +95,31 @@ def gen_case(rng, writes, kinds=('plain', 'window')):
         ctr = min(ctr, (1 << 128) - 1 - (sz // 16 + 64))
     nops = rng.randrange(1, 13)
     ops = []
+    pos = 0          # estimate of the position, to hit coincidences on purpose (a seek that does not move, a relative seek BY the position)
     for _ in range(nops):
         r = rng.random()
+        if ops and rng.random() < 0.12:
+            k = rng.randrange(3)
+            if k == 0:
+                ops.append(['s', pos, 1])
+                pos += pos
+            elif k == 1:
+                ops.append(['s', pos, 0])
+            else:
+                ops.append(['s', pos - sz, 2] if pos else ['s', 0, 2])
+                pos = pos if pos else sz
+            if writes and rng.random() < 0.4:
+                ops.append(['w', pyenv.rbytes(rng, rng.choice([1, 16, 17])).hex()])
+                pos += len(ops[-1][1]) // 2
+            else:
+                ops.append(['r', rng.choice([1, 5, 16, 17])])
+                pos += min(ops[-1][1], max(0, sz - pos))
+            continue
         if r < 0.45 or (not writes and r < 0.6):
             n = rng.choice([-1, -1, 0, 1, 2, 15, 16, 17, 31, 33, sz, sz + 5, rng.randrange(0, sz + 2), -3])
             ops.append(['r', n])
+            left = max(0, sz - pos)
+            pos += left if n < 0 else min(n, left)
         elif r < 0.75 or not writes:
             wh = rng.choice([0, 0, 0, 1, 1, 2])
             if wh == 0:
@@ -112,9 +132,11 @@ def gen_case(rng, writes, kinds=('plain', 'window')):
             else:
                 o = rng.choice([-sz, -17, -16, -1, 0, 1])
             ops.append(['s', o, wh])
+            pos = o if wh == 0 else (max(0, pos + o) if wh == 1 else max(0, sz + o))
         else:
             k = rng.choice([0, 1, 2, 15, 16, 17, 31, 32, 33, 5])
             ops.append(['w', pyenv.rbytes(rng, k).hex()])
+            pos += k
         if rng.random() < 0.1:
             ops.append(['t'])
     return dict(twl=twl, kind=kind, off=off, sz=sz, base=base.hex(), key=pyenv.rbytes(rng, 16).hex(), ctr=ctr, ops=ops)
